@@ -108,11 +108,16 @@ pub fn check_at(h: &History, k: usize) -> Result<Option<bool>, Failure> {
     let nontrivial = !doc["fcnt_down"].is_null() || doc["uplink"]["pending_len"].as_u64().unwrap_or(0) > 0 || doc["uplink"]["confirmed"].as_bool().unwrap_or(false);
     // ---- behavioural equality: the restored twin continues like the original
     // every second crash point restores onto a live, ABP-provisioned nb device instead of a fresh one
-    let mut b = World::from_session_via(h, &doc2, &a, k % 2 == 1).map_err(|e| Failure::new("harness", case(), e))?;
+    // ... and every fourth one on a device whose application settings (data rate, ADR switch) were made
+    // before the restore rather than after it
     let dr = a.front.get_datarate();
-    b.front.set_datarate(dr);
     let adr = a.front.get_adr();
-    b.front.set_adr(adr);
+    let pre = k % 4 == 3 && h.cfg.front.is_nb();
+    let mut b = World::from_session_via(h, &doc2, &a, k % 2 == 1, if pre { Some((dr, adr)) } else { None }).map_err(|e| Failure::new("harness", case(), e))?;
+    if !pre {
+        b.front.set_datarate(dr);
+        b.front.set_adr(adr);
+    }
     for (j, s) in suffix(h.rng_seed ^ k as u64).iter().enumerate() {
         let ra = a.step(1000 + j, s);
         let rb = b.step(1000 + j, s);
